@@ -5,6 +5,7 @@
 #include "clang/AST/RecursiveASTVisitor.h"
 #include "clang/AST/RecordLayout.h"
 #include "clang/AST/CXXInheritance.h"
+#include "clang/AST/ParentMapContext.h"
 #include "clang/Frontend/CompilerInstance.h"
 #include "clang/Frontend/FrontendAction.h"
 #include "clang/Tooling/Tooling.h"
@@ -47,24 +48,70 @@ public:
   }
 };
 
+// --inventory (C19): every variable with static storage duration declared in repository files, and every access to a mutable one from a
+// function body, classified as read / write / escape by its syntactic context.
 class InventoryVisitor : public RecursiveASTVisitor<InventoryVisitor> {
 public:
-  ASTContext& Ctx; std::vector<std::string> out; explicit InventoryVisitor(ASTContext& c) : Ctx(c) {}
+  ASTContext& Ctx; std::vector<std::string> out, acc; std::set<std::string> seenVar, seenAcc; std::vector<const FunctionDecl*> fnStack;
+  explicit InventoryVisitor(ASTContext& c) : Ctx(c) {}
   bool shouldVisitTemplateInstantiations() const { return true; }
+  bool inRepo(SourceLocation l0, std::string& f, unsigned& line) { auto& SM = Ctx.getSourceManager(); SourceLocation l = SM.getExpansionLoc(l0); f = SM.getFilename(l).str(); line = SM.getSpellingLineNumber(l); return !(f.find("/usr/") == 0 || f.find("/opt/") == 0 || f.empty()); }
+  static bool syncType(QualType t) { std::string s = t.getCanonicalType().getAsString(); return s.find("std::atomic") != std::string::npos || s.find("std::mutex") != std::string::npos || s.find("std::once_flag") != std::string::npos || s.find("std::shared_mutex") != std::string::npos; }
+  bool isMutableStatic(const VarDecl* v) { if (!v->hasGlobalStorage() || isa<ParmVarDecl>(v)) return false; QualType t = v->getType(); if (t->isReferenceType()) return false; return !(t.isConstQualified() || v->isConstexpr()) && v->getTLSKind() == VarDecl::TLS_None && !syncType(t); }
   bool VisitVarDecl(VarDecl* v) {
     if (!v->hasGlobalStorage() || isa<ParmVarDecl>(v)) return true;
     if (!v->isThisDeclarationADefinition() && !v->isStaticLocal()) return true;
-    auto& SM = Ctx.getSourceManager(); SourceLocation l = SM.getExpansionLoc(v->getLocation());
-    std::string f = SM.getFilename(l).str(); if (f.find("/usr/") == 0 || f.find("/opt/") == 0 || f.empty()) return true;
-    if (v->getDeclContext()->isDependentContext()) return true;
+    std::string f; unsigned line; if (!inRepo(v->getLocation(), f, line)) return true;
     QualType t = v->getType();
     bool isConst = t.isConstQualified() || v->isConstexpr();
     bool tls = v->getTLSKind() != VarDecl::TLS_None;
     std::string kind = v->isStaticLocal() ? "static-local" : (v->isStaticDataMember() ? "static-member" : "namespace-scope");
-    std::ostringstream o; o << "{\"name\": \"" << jsonEsc(v->getQualifiedNameAsString()) << "\", \"type\": \"" << jsonEsc(t.getAsString()) << "\", \"file\": \"" << jsonEsc(f) << "\", \"line\": " << SM.getSpellingLineNumber(l)
-      << ", \"const\": " << (isConst ? "true" : "false") << ", \"thread_local\": " << (tls ? "true" : "false") << ", \"kind\": \"" << kind << "\"}";
+    std::string key = f + ":" + std::to_string(line) + ":" + v->getNameAsString(); if (!seenVar.insert(key).second) return true;   // one entry per declaration site (instantiations collapse)
+    std::ostringstream o; o << "{\"name\": \"" << jsonEsc(v->getNameAsString()) << "\", \"type\": \"" << jsonEsc(v->getDeclContext()->isDependentContext() ? std::string("<dependent>") : t.getAsString()) << "\", \"file\": \"" << jsonEsc(f) << "\", \"line\": " << line
+      << ", \"const\": " << (isConst ? "true" : "false") << ", \"thread_local\": " << (tls ? "true" : "false") << ", \"sync_type\": " << (syncType(t) ? "true" : "false") << ", \"kind\": \"" << kind << "\"}";
     out.push_back(o.str()); return true;
   }
+  bool TraverseFunctionDecl(FunctionDecl* f) { fnStack.push_back(f); bool r = RecursiveASTVisitor::TraverseFunctionDecl(f); fnStack.pop_back(); return r; }
+  bool TraverseCXXMethodDecl(CXXMethodDecl* f) { fnStack.push_back(f); bool r = RecursiveASTVisitor::TraverseCXXMethodDecl(f); fnStack.pop_back(); return r; }
+  bool TraverseCXXConstructorDecl(CXXConstructorDecl* f) { fnStack.push_back(f); bool r = RecursiveASTVisitor::TraverseCXXConstructorDecl(f); fnStack.pop_back(); return r; }
+  bool TraverseCXXDestructorDecl(CXXDestructorDecl* f) { fnStack.push_back(f); bool r = RecursiveASTVisitor::TraverseCXXDestructorDecl(f); fnStack.pop_back(); return r; }
+  std::string classify(const Expr* e) {
+    // walk up through projections until the context decides
+    const Expr* cur = e;
+    for (int depth = 0; depth < 12; ++depth) {
+      auto ps = Ctx.getParents(*cur); if (ps.empty()) return "other";
+      if (auto* p = ps[0].get<ImplicitCastExpr>()) { auto k = p->getCastKind(); if (k == CK_LValueToRValue) return "read"; if (k == CK_NoOp || k == CK_ArrayToPointerDecay || k == CK_DerivedToBase || k == CK_UncheckedDerivedToBase) { if (k == CK_ArrayToPointerDecay && !p->getType()->getPointeeType().isConstQualified()) { cur = p; continue; } cur = p; continue; } return "other"; }
+      if (auto* p = ps[0].get<ParenExpr>()) { cur = p; continue; }
+      if (auto* p = ps[0].get<MemberExpr>()) { if (p->getBase()->IgnoreParenImpCasts() == cur->IgnoreParenImpCasts() || p->getBase() == cur) { if (isa<CXXMethodDecl>(p->getMemberDecl())) { auto* m = cast<CXXMethodDecl>(p->getMemberDecl()); return m->isConst() || m->isStatic() ? "read" : "write"; } cur = p; continue; } return "other"; }
+      if (auto* p = ps[0].get<ArraySubscriptExpr>()) { cur = p; continue; }
+      if (auto* p = ps[0].get<UnaryOperator>()) { if (p->isIncrementDecrementOp()) return "write"; if (p->getOpcode() == UO_AddrOf) return "escape"; if (p->getOpcode() == UO_Deref) { cur = p; continue; } return "read"; }
+      if (auto* p = ps[0].get<BinaryOperator>()) { if (p->isAssignmentOp()) return p->getLHS()->IgnoreParenImpCasts() == cur->IgnoreParenImpCasts() || p->getLHS() == cur ? "write" : "read"; return "read"; }
+      if (auto* p = ps[0].get<CXXOperatorCallExpr>()) { if (p->getNumArgs() && (p->getArg(0) == cur || p->getArg(0)->IgnoreParenImpCasts() == cur->IgnoreParenImpCasts())) { if (p->isAssignmentOp()) return "write"; if (auto* m = dyn_cast_or_null<CXXMethodDecl>(p->getDirectCallee())) return m->isConst() ? "read" : "write"; } return argKind(p, cur); }
+      if (auto* p = ps[0].get<CallExpr>()) return argKind(p, cur);
+      if (auto* p = ps[0].get<CXXConstructExpr>()) { for (unsigned i = 0; i < p->getNumArgs(); ++i) if (p->getArg(i) == cur) { QualType pt = p->getConstructor()->getParamDecl(i)->getType(); if (!pt->isReferenceType() && !pt->isPointerType()) return "read"; return pt->getPointeeType().isConstQualified() ? "read" : "escape"; } return "other"; }
+      if (auto* p = ps[0].get<VarDecl>()) { QualType vt = p->getType(); if (vt->isReferenceType() || vt->isPointerType()) return vt->getPointeeType().isConstQualified() ? "read" : "escape"; return "read"; }
+      if (ps[0].get<ReturnStmt>()) { if (!fnStack.empty()) { QualType rt = fnStack.back()->getReturnType(); if (rt->isReferenceType() || rt->isPointerType()) return rt->getPointeeType().isConstQualified() ? "read" : "escape"; } return "read"; }
+      if (ps[0].get<IfStmt>() || ps[0].get<ForStmt>() || ps[0].get<WhileStmt>() || ps[0].get<ConditionalOperator>()) return "read";
+      return "other";
+    }
+    return "other";
+  }
+  std::string argKind(const CallExpr* p, const Expr* cur) {
+    auto* fd = p->getDirectCallee(); unsigned off = isa<CXXOperatorCallExpr>(p) && fd && isa<CXXMethodDecl>(fd) ? 1 : 0;
+    for (unsigned i = 0; i < p->getNumArgs(); ++i) if (p->getArg(i) == cur) { if (!fd || i < off || i - off >= fd->getNumParams()) return "other"; QualType pt = fd->getParamDecl(i - off)->getType(); if (!pt->isReferenceType() && !pt->isPointerType()) return "read"; return pt->getPointeeType().isConstQualified() ? "read" : "escape"; }
+    return "other";
+  }
+  void note(const VarDecl* v, const Expr* e) {
+    if (!v || !isMutableStatic(v)) return; std::string vf; unsigned vl; if (!inRepo(v->getLocation(), vf, vl)) return;
+    std::string f; unsigned line; if (!inRepo(e->getExprLoc(), f, line)) return;
+    std::string kind = classify(e); std::string fn = fnStack.empty() ? "<static initialiser>" : fnStack.back()->getNameAsString();
+    if (!fnStack.empty()) if (auto* md = dyn_cast<CXXMethodDecl>(fnStack.back())) fn = md->getParent()->getNameAsString() + "::" + fn;
+    std::string key = vf + ":" + std::to_string(vl) + "|" + f + ":" + std::to_string(line) + "|" + kind; if (!seenAcc.insert(key).second) return;
+    std::ostringstream o; o << "{\"var\": \"" << jsonEsc(v->getNameAsString()) << "\", \"var_file\": \"" << jsonEsc(vf) << "\", \"var_line\": " << vl << ", \"function\": \"" << jsonEsc(fn) << "\", \"file\": \"" << jsonEsc(f) << "\", \"line\": " << line << ", \"kind\": \"" << kind << "\"}";
+    acc.push_back(o.str());
+  }
+  bool VisitDeclRefExpr(DeclRefExpr* e) { note(dyn_cast<VarDecl>(e->getDecl()), e); return true; }
+  bool VisitMemberExpr(MemberExpr* e) { note(dyn_cast<VarDecl>(e->getMemberDecl()), e); return true; }
 };
 
 class Consumer : public ASTConsumer {
@@ -73,7 +120,7 @@ public:
     if (ctx.getDiagnostics().hasErrorOccurred()) { llvm::errs() << "CXX2C ABORT: the translation unit has compile errors\n"; exit(2); }
     if (Inventory) {
       InventoryVisitor V(ctx); V.TraverseDecl(ctx.getTranslationUnitDecl());
-      std::ofstream j(OutPrefix + ".json"); j << "{\"statics\": [\n"; for (size_t i = 0; i < V.out.size(); ++i) j << "  " << V.out[i] << (i + 1 < V.out.size() ? ",\n" : "\n"); j << "]}\n"; return;
+      std::ofstream j(OutPrefix + ".json"); j << "{\"statics\": [\n"; for (size_t i = 0; i < V.out.size(); ++i) j << "  " << V.out[i] << (i + 1 < V.out.size() ? ",\n" : "\n"); j << "],\n\"accesses\": [\n"; for (size_t i = 0; i < V.acc.size(); ++i) j << "  " << V.acc[i] << (i + 1 < V.acc.size() ? ",\n" : "\n"); j << "]}\n"; return;
     }
     Emitter E(ctx); E.allowDtorSkip = AllowDtorSkip;
     for (auto& o : Outline) { auto p = o.rfind(':'); if (p == std::string::npos) { llvm::errs() << "CXX2C ABORT: bad --outline\n"; exit(2); } E.outlineReq.insert({o.substr(0, p), atoi(o.c_str() + p + 1)}); }
